@@ -5,7 +5,7 @@ package main
 
 import "fmt"
 
-var allPopKinds = []string{"tampered", "unsigned", "foreign", "other-step-key", "earlier-step-key", "earlier-step-key", "forged-keyid", "extra-sigs", "dup-infix", "keyid-variant", "keyid-variant", "wrong-name-len", "garbage", "bad-sig-encoding", "corrupt-sig", "cert", "cert", "cert"}
+var allPopKinds = []string{"tampered", "unsigned", "foreign", "other-step-key", "earlier-step-key", "earlier-step-key", "forged-keyid", "extra-sigs", "dup-infix", "keyid-variant", "keyid-variant", "sublayout-unauthorized", "wrong-name-len", "garbage", "bad-sig-encoding", "corrupt-sig", "cert", "cert", "cert"}
 
 var alterKinds = []string{"mutate-field", "mutate-field", "mutate-field", "drop-sig", "reorder-sigs", "dup-sig", "corrupt-sig", "swap-keyids", "foreign-verifier", "empty-keyset", "wrong-key", "verifier-subset", "signed-by-others-only", "verifier-keytype", "verifier-scheme", "payload-case-dup"}
 
@@ -56,11 +56,12 @@ func init() {
 					cfg.LayoutDSSE = true
 				}
 			}
-			if rng.Chance(10) {
+			if rng.Chance(25) {
 				cfg.Depth = 1
+				cfg.SubInspPct = 70
 			}
 			return cfg
-		}, "generated 1-3 step chains, 1-2 layout signer keys from an RSA/ECDSA/Ed25519 pool, both wrappers, both entry points, every layout carries an inspection that appends to a marker file; 4 of 5 cases apply one alteration after signing (a string anywhere in the signed layout, drop/reorder/duplicate/corrupt a signature, swap key ids, add a foreign verifier key, empty key set, wrong key, verifier subset, same key id but other key, a verifier key with an unknown key type or an unfitting scheme, an envelope with two payload members whose names differ in letter case), in 60% of them after the authentic layout was verified in the same process; compared: verdict, summary, inspection commands that actually ran. Class = (wrapper, entry, alteration, verdict).")
+		}, "generated 1-3 step chains, 1-2 layout signer keys from an RSA/ECDSA/Ed25519 pool, both wrappers, both entry points, every layout carries an inspection that appends to a marker file, a quarter of the chains has a step whose evidence is a sublayout (most of those with an inspection of their own); 4 of 5 cases apply one alteration after signing (a string anywhere in the signed layout, drop/reorder/duplicate/corrupt a signature, swap key ids, add a foreign verifier key, empty key set, wrong key, verifier subset, same key id but other key, a verifier key with an unknown key type or an unfitting scheme, an envelope with two payload members whose names differ in letter case), in 60% of them after the authentic layout was verified in the same process; compared: verdict, summary, inspection commands that actually ran. Class = (wrapper, entry, alteration, verdict).")
 	}
 	props["C02"] = func(r *Runner, tier string, rng *Rng) {
 		runChains(r, rng, tierN(tier, 300, 8000), func(i int) *ChainCfg {
@@ -87,6 +88,7 @@ func init() {
 			cfg.Differ = rng.Chance(60)
 			cfg.SurplusPct = 30 // more counted links than the threshold: ALL of them have to agree
 			cfg.EmptyLastPct = 20
+			cfg.OddSummaryPct = 25
 			if rng.Chance(40) {
 				cfg.Inspections = []string{"noop"}
 				cfg.InspNameClashPct = 60
@@ -95,7 +97,7 @@ func init() {
 			cfg.PopKinds = []string{"foreign", "unsigned", "tampered", "forged-keyid"}
 			cfg.ExtraPerStep = rng.Intn(2)
 			return cfg
-		}, "1-3 steps with thresholds 1-3, in 30% one counted link more than the threshold; counted links agree or one of them differs in one product path / digest / presence / hash algorithm set; the last step of a multi-step layout reports no products in a fifth of the cases; 40% carry an inspection, often named like the first or last step; uncounted links (foreign, unsigned, tampered, forged id) carry other artifacts; rules strict (MATCH + DISALLOW *), lenient or random; compared: verdict and the summary's name, materials and products. Class = (differ?, kinds, verdict).")
+		}, "1-3 steps with thresholds 1-3, in 30% one counted link more than the threshold; counted links agree or one of them differs in one product path / digest / presence / hash algorithm set; the last step of a multi-step layout reports no products in a fifth of the cases; 40% carry an inspection, often named like the first or last step; uncounted links (foreign, unsigned, tampered, forged id) carry other artifacts; rules strict (MATCH + DISALLOW *), lenient or random; the requested summary name carries leading/trailing blanks, tabs, line ends in a quarter of the cases; compared: verdict and the summary's name, materials and products. Class = (differ?, kinds, verdict).")
 	}
 	props["C08"] = func(r *Runner, tier string, rng *Rng) {
 		runChains(r, rng, tierN(tier, 220, 5000), func(i int) *ChainCfg {
@@ -111,12 +113,13 @@ func init() {
 			cfg.EmptyLastPct = 30
 			cfg.EmptyLastSub = true
 			if rng.Chance(40) {
-				cfg.PopKinds = []string{"tampered", "foreign", "forged-keyid", "garbage", "corrupt-sig"}
+				cfg.PopKinds = []string{"tampered", "foreign", "forged-keyid", "garbage", "corrupt-sig", "sublayout-unauthorized", "sublayout-unauthorized"}
 				cfg.ExtraPerStep = 1
 			}
+			cfg.SubInspPct = 30
 			cfg.Differ = rng.Chance(15)
 			return cfg
-		}, "two- and three-level nestings: the evidence of one functionary per step may be a sublayout with its own link directory; defects (tampered/foreign/forged/garbage/corrupt links, one link too few, disagreeing links, rule violations) land at any level (incl. an expired or undated sublayout under a valid root, a sublayout whose last step reports no products, a sublayout whose directory is missing while its links lie in the parent's directory), also in a sublayout of a step that has more honest evidence than its threshold requires; parent rules strict or lenient; compared: verdict and summary. Class = (depth features, verdict).")
+		}, "two- and three-level nestings: the evidence of one functionary per step may be a sublayout with its own link directory; defects (tampered/foreign/forged/garbage/corrupt links, one link too few, disagreeing links, rule violations) land at any level (incl. an expired or undated sublayout under a valid root, a sublayout whose last step reports no products, a sublayout whose directory is missing while its links lie in the parent's directory, a valid sublayout with its directory signed by a key the layout defines but does not list for that step, sublayouts with inspections of their own), also in a sublayout of a step that has more honest evidence than its threshold requires; parent rules strict or lenient; compared: verdict and summary. Class = (depth features, verdict).")
 	}
 	props["C09"] = func(r *Runner, tier string, rng *Rng) {
 		kinds := []string{"noop", "create", "modify", "delete", "exit", "create-exit", "signal", "missing", "empty", "noop", "create", "noop"}
